@@ -12,7 +12,7 @@ import types
 import z3
 
 from . import sym as S
-from .sym import (ExcVal, SBool, SBytes, SInt, SMap, SObj, SRange, SReal, SSeq, Sym, T, Ty, Unsupported, concrete_of,
+from .sym import (ExcVal, SBool, SBytes, SBytesIO, SInt, SItems, SMap, SObj, SRange, SReal, SSeq, Sym, T, Ty, Unsupported, concrete_of,
                   seq_lit, simp, to_z3, wrap)
 
 
@@ -88,7 +88,7 @@ def get_attr(I, v, name):
         if d is not None:
             return d
         I.raise_py(AttributeError, name)
-    if isinstance(v, (SBytes, SSeq, SInt, SBool, SMap, SReal)):
+    if isinstance(v, (SBytes, SSeq, SInt, SBool, SMap, SReal, SBytesIO, SItems)):
         return itp.SymMethod(v, name)
     if isinstance(v, (list, dict, bytearray)) or (isinstance(v, (tuple,)) and itp.has_sym(v)):
         return itp.SymMethod(v, name)
@@ -356,9 +356,19 @@ def sym_method(I, recv, name, args, kwargs):
             recv.clear()
             return None
         raise Unsupported(f"dict.{name}")
+    if isinstance(recv, SBytesIO):
+        return bytesio_method(I, recv, name, args, kwargs)
+    if isinstance(recv, SMap) and name in ("items", "keys", "values") and not args:
+        if recv.keys is None:
+            M.attach_key_order(I, recv, "d")
+        if name == "items":
+            return SItems(SSeq(recv.keys.arr, recv.keys.n, recv.kty, "list"), recv.val, recv.kty, recv.vty)
+        if name == "keys":
+            return SSeq(recv.keys.arr, recv.keys.n, recv.kty, "list")
+        raise Unsupported("dict.values() on a symbolic map")
     if isinstance(recv, SMap):
         if name == "get":
-            kz = to_z3(args[0])
+            kz = M.key_of(I, args[0])
             default = args[1] if len(args) > 1 else None
             if I.spec:
                 if default is None:
@@ -368,7 +378,8 @@ def sym_method(I, recv, name, args, kwargs):
                 return wrap(recv.vty, z3.Select(recv.val, kz))
             return default
         if name == "pop":
-            kz = to_z3(args[0])
+            kz = M.key_of(I, args[0])
+            M.drop_key_order(recv)
             if I.path.branch(z3.Select(recv.has, kz), note="dict.pop"):
                 val = wrap(recv.vty, z3.Select(recv.val, kz))
                 recv.has = z3.Store(recv.has, kz, z3.BoolVal(False))
@@ -452,6 +463,44 @@ def sym_method(I, recv, name, args, kwargs):
         if name == "bit_length":
             raise Unsupported("int.bit_length on a symbolic int")
     raise Unsupported(f"method {name} of {type(recv).__name__}")
+
+
+def bytesio_method(I, f, name, args, kwargs):
+    """io.BytesIO on the ghost (buf, pos), for 0 <= pos <= len(buf) (anything else: unsupported)."""
+    M = _m()
+    p = I.path
+    n = z3.Length(f.buf)
+    if name == "tell":
+        return SInt(f.pos)
+    if name == "getvalue":
+        return SBytes(f.buf, "bytes")
+    if name == "seek":
+        where = to_z3(args[0])
+        whence = args[1] if len(args) > 1 else 0
+        if whence != 0:
+            raise Unsupported("BytesIO.seek whence != 0")
+        if not I.spec:
+            if not p.branch(where >= 0, note="seek-nonneg"):
+                I.raise_py(ValueError, "negative seek value")
+            p.prove(where <= n, "bytesio.seek-within-buffer", kind="model-side-condition")
+        f.pos = simp(where)
+        return SInt(f.pos)
+    if name == "truncate":
+        size = to_z3(args[0]) if args and args[0] is not None else f.pos
+        p.prove(z3.And(size >= 0, size <= n), "bytesio.truncate-within-buffer", kind="model-side-condition")
+        f.buf = simp(z3.SubSeq(f.buf, 0, size))
+        return SInt(size)
+    if name == "write":
+        data = M.as_seq(I, args[0])
+        k = z3.Length(data)
+        end = f.pos + k
+        tail_start = z3.If(end < n, end, n)
+        f.buf = simp(z3.Concat(z3.SubSeq(f.buf, 0, f.pos), data, z3.SubSeq(f.buf, tail_start, n - tail_start)))
+        f.pos = simp(end)
+        return SInt(k)
+    if name == "read":
+        raise Unsupported("BytesIO.read")
+    raise Unsupported(f"BytesIO.{name}")
 
 
 def int_to_bytes(I, v, length, order, signed=False):
@@ -1082,16 +1131,21 @@ def with_manager(I, mgr):
 
 
 def _quant_parts(I, call_node):
-    """all(...)/any(...) over a generator with one 'for k in range(lo, hi)' clause."""
+    """all(...)/any(...) over a generator with one clause: 'for k in range(lo, hi)' or
+    'for k in <dict expression>' (quantification over the present keys)."""
     if not (isinstance(call_node, ast.Call) and isinstance(call_node.func, ast.Name) and call_node.func.id in ("all", "any") and len(call_node.args) == 1 and isinstance(call_node.args[0], ast.GeneratorExp)):
         return None
     gen = call_node.args[0]
     if len(gen.generators) != 1:
         return None
     g = gen.generators[0]
-    if not (isinstance(g.iter, ast.Call) and isinstance(g.iter.func, ast.Name) and g.iter.func.id == "range" and isinstance(g.target, ast.Name)):
+    if not isinstance(g.target, ast.Name):
         return None
-    return call_node.func.id, g.target.id, g.iter.args, g.ifs, gen.elt
+    if isinstance(g.iter, ast.Call) and isinstance(g.iter.func, ast.Name) and g.iter.func.id == "range":
+        return call_node.func.id, g.target.id, g.iter.args, g.ifs, gen.elt
+    if isinstance(g.iter, (ast.Name, ast.Attribute)):
+        return call_node.func.id, g.target.id, ("map", g.iter), g.ifs, gen.elt
+    return None
 
 
 def _range_bounds(I, rargs, frame):
@@ -1100,6 +1154,20 @@ def _range_bounds(I, rargs, frame):
     if len(rargs) == 2:
         return to_z3(I.eval(rargs[0], frame)), to_z3(I.eval(rargs[1], frame))
     raise Unsupported("quantifier range with step")
+
+
+def _quant_domain(I, rargs, frame):
+    """returns (guard(t) -> list of z3 bools, lo, hi) ; lo/hi are None for a dict domain"""
+    if isinstance(rargs, tuple) and rargs and rargs[0] == "map":
+        d = I.eval(rargs[1], frame)
+        if isinstance(d, dict):
+            raise Unsupported("quantifier over a concrete dict (write it over its items)")
+        if not isinstance(d, SMap):
+            raise Unsupported("quantifier domain is neither range(...) nor a dict")
+        has = d.has
+        return (lambda t: [z3.Select(has, t)]), None, None
+    lo, hi = _range_bounds(I, rargs, frame)
+    return (lambda t: [t >= lo, t < hi]), lo, hi
 
 
 def snapshot_value(v, memo):
@@ -1116,9 +1184,11 @@ def snapshot_value(v, memo):
     if isinstance(v, SBytes):
         return SBytes(v.e, v.kind)
     if isinstance(v, SSeq):
-        return SSeq(v.arr, v.n, v.ety, v.kind, v.off)
+        return SSeq(v.arr, v.n, v.ety, v.kind, v.off, v.mem, v.lpos)
     if isinstance(v, SMap):
-        return SMap(v.has, v.val, v.kty, v.vty, v.size)
+        return SMap(v.has, v.val, v.kty, v.vty, v.size, v.keys, v.kpos)
+    if isinstance(v, SBytesIO):
+        return SBytesIO(v.buf, v.pos)
     if isinstance(v, list):
         return [snapshot_value(x, memo) for x in v]
     if isinstance(v, tuple):
@@ -1220,9 +1290,9 @@ def spec_call(I, e, frame):
     qp = _quant_parts(I, e)
     if qp is not None:
         which, var, rargs, ifs, elt = qp
-        lo, hi = _range_bounds(I, rargs, frame)
+        dom, lo, hi = _quant_domain(I, rargs, frame)
         pol = I.spec
-        clo, chi = concrete_of(lo), concrete_of(hi)
+        clo, chi = (concrete_of(lo), concrete_of(hi)) if lo is not None else (None, None)
         if clo is not None and chi is not None and chi - clo <= 64:
             outs = []
             for t in range(clo, chi):
@@ -1240,7 +1310,7 @@ def spec_call(I, e, frame):
             k = I.path.fresh_int(var)
             I.path.add_pool(k)
             fr = itp.Frame(frame.fn, {var: SInt(k)}, frame.globals, frame.info, parent=frame)
-            guard = [k >= lo, k < hi] + [I.as_bool_expr(I.eval(c, fr)) for c in ifs]
+            guard = dom(k) + [I.as_bool_expr(I.eval(c, fr)) for c in ifs]
             body = I.as_bool_expr(I.eval(elt, fr))
             if which == "all":
                 return SBool(simp(z3.Implies(z3.And(*guard), body)))
@@ -1263,13 +1333,13 @@ def spec_call(I, e, frame):
                 for d in (simp(t + 1), simp(t - 1)):
                     if not any(u.eq(d) for u in terms + extra):
                         extra.append(d)
-            terms += extra + [z3.IntVal(0), simp(hi - 1), lo]
+            terms += extra + [z3.IntVal(0)] + ([simp(hi - 1), lo] if lo is not None else [])
         outs = []
         I.inst_depth = depth + 1
         try:
             for t in terms:
                 fr = itp.Frame(frame.fn, {var: SInt(t)}, frame.globals, frame.info, parent=frame)
-                guard = [t >= lo, t < hi] + [I.as_bool_expr(I.eval(c, fr)) for c in ifs]
+                guard = dom(t) + [I.as_bool_expr(I.eval(c, fr)) for c in ifs]
                 body = I.as_bool_expr(I.eval(elt, fr))
                 outs.append(z3.Implies(z3.And(*guard), body) if which == "all" else z3.And(*(guard + [body])))
         finally:
